@@ -205,21 +205,73 @@ def classify(check, info, case):
         return f"polygon.{OPNAME.get(op, op)}-result-rebuilt-at-z0"
     if check in ("result.height", "result.true-contains", "result.distance", "result.aabb", "result.sample") and info.get("z_lost"):
         return f"polygon.{OPNAME.get(op, op)}-result-rebuilt-at-z0"
-    if check == "unary.distance" and info.get("cls") == "CircularRegion" and info.get("circ_z0"):
+    if check in ("unary.distance", "result.distance") and info.get("circ_z0"):
         return "circular.distanceTo-tests-z-equals-0"
+    if info.get("alt_key"):
+        return info["alt_key"]
     if check == "project.nearest" and info.get("first_hit"):
         return "mesh.projectVector-norm-over-all-hits"
+    if check == "unary.contains" and info.get("cls") == "PolylineRegion" and info.get("obs") is False and info.get("p", [0, 0, 1])[2] == 0:
+        return "polyline.containsPoint-exact-predicate-misses-own-points"
+    if check == "op.error" and "RecursionError" in err and op == "and" and ka in ("pointset", "grid") and kb in ("pointset", "grid"):
+        return "pointset.intersect-pointset-infinite-recursion"
+    if check == "containsRegion.error" and "too many values to unpack" in err and ka in ("pointset", "grid") and kb in ("pointset", "grid"):
+        return "pointset.containsRegionInner-kdtree-query-unpack"
+    if check == "lazy.error" and "got multiple values for argument 'orientation'" in err and "meshsurf" in (ka, kb):
+        return "meshsurface.evaluateInner-orientation-passed-twice"
     if check == "containsRegion.error" and "name 'other' is not defined" in err:
         return "footprint.containsRegionInner-undefined-other"
     if check == "containsRegion.error" and "'PolylineRegion' object has no attribute 'polygons'" in err:
         return "polyline.containsRegionInner-uses-polygons"
     if check == "lazy.error" and "unexpected keyword argument 'orientation'" in err:
         return "difference.evaluateInner-orientation-kwarg"
+    if check == "lazy.error" and "RecursionError" in err and op == "or" and (ka in ("polygon", "circle", "sector", "rect") or kb in ("polygon", "circle", "sector", "rect")):
+        return "polygon.union-lazy-operand-infinite-recursion"
     return None
 
 
 def _rclass(R):
     return type(R).__name__
+
+
+SECTOR_TRUNC = "sector.polygon-mask-truncates-angles-over-120deg"
+
+
+def alt_models(A, B, SA, SB):
+    """'as implemented' variants of the operand oracles used ONLY to name the mechanism of a disagreement that the
+    independent oracle has already established: (key, which operand, replacement oracle)"""
+    from rt import regionoracle as ro
+
+    out = []
+    for which, X, SX in (("A", A, SA), ("B", B, SB)):
+        if X.kind == "sector" and X.params["angle"] > 2.0944 + 1e-3:
+            alt = ro.OPolygon.__new__(ro.OPolygon)
+            ro.Orc.__init__(alt, X.params)
+            alt.poly = SX.polygons
+            alt.planar_z = X.planar_z
+            alt.eps = X.eps
+            alt.zfree = False
+            alt.kind = "sector"
+            out.append((SECTOR_TRUNC, which, alt))
+    return out
+
+
+def explain_point(mon, op, A, B, p, obs):
+    """key of the first alternative model under which the observed answer at p would be right"""
+    for key, which, alt in getattr(mon, "alts", ()):
+        A2, B2 = (alt, B) if which == "A" else (A, alt)
+        P1 = np.asarray(p, float)[None]
+        if op is None:
+            e = alt.member(P1)
+        else:
+            e = _comb(op, A2.member(P1), B2.member(P1))
+        if e[0] != -1 and bool(e[0]) == bool(obs):
+            return key
+        if op is not None:
+            e = _comb(op, A2.fmember(P1), B2.fmember(P1))
+            if e[0] != -1 and bool(e[0]) == bool(obs):
+                return key
+    return None
 
 
 def _comb(op, a, b):
@@ -486,6 +538,13 @@ def check_result(mon, R, op, A, B, P, mA, mB, fA, fB, dA, dB, rng, label=""):
             z_lost = rc == "PolygonalRegion" and float(rz) == 0.0
             mon.report("result.height", f"A.{opn}(B) is a {rc} at z = {rz} but the operands' plane is z = {want_z}; A={_short(A)} B={_short(B)}", dict(info0, got_z=float(rz), want_z=want_z))
     info0["z_lost"] = z_lost
+    expp = None
+    if planar_res and want_z is not None and lenient:
+        # containsPoint of a planar result may ignore z (footprint semantics): expectation at the point's
+        # projection onto the plane of the result
+        Pp = P.copy()
+        Pp[:, 2] = want_z
+        expp = _comb(op, A.member(Pp), B.member(Pp))
     n_mem = n_non = 0
     dist_ok = True
     members = P[exp3 == 1]
@@ -506,7 +565,10 @@ def check_result(mon, R, op, A, B, P, mA, mB, fA, fB, dA, dB, rng, label=""):
         elif lenient and ef != -1 and obs == bool(ef):
             mon.bump("membership_compared")
             mon.bump("membership_z_ignored_as_documented")
-        elif e3 == -1 or (lenient and ef == -1):
+        elif expp is not None and expp[i] != -1 and obs == bool(expp[i]):
+            mon.bump("membership_compared")
+            mon.bump("membership_z_ignored_as_documented")
+        elif e3 == -1 or (lenient and ef == -1) or (expp is not None and expp[i] == -1):
             mon.skip("probe_near_boundary")
         else:
             mon.bump("membership_compared")
